@@ -31,6 +31,16 @@ def wl_bloom(ctx, rng, case):
         B = list(A)
         ctx.count("identical_content_operand_pairs")
     disk = (rng.random() < 0.35, rng.random() < 0.35)
+    if case.index % 30 == 5:
+        # est_elements given as a non-integral number (the constructor accepts any Number > 0); such filters live in memory only
+        from .. import refimpl as _r
+        for _ in range(40):
+            est_f = est + rng.choice([0.2, 0.5, 0.75, 0.999])
+            mk = _r.bloom_sizing_simple(est_f, rate)
+            if mk and mk[1] >= 1:
+                est, (m, k), disk = est_f, mk, (False, False)
+                ctx.count("fractional_est_operand_pairs")
+                break
     case.desc = {"kind": "bloom", "est": est, "rate": rate, "bits": m, "hashes": k, "hash": hname, "on_disk": disk, "A": A, "B": B}
     ctx.observe("operand_placement", str(disk))
     ctx.observe("bits_mod_8", m % 8)
